@@ -90,6 +90,8 @@ func (f *fprinter) attr(a Attr, level int) {
 		f.indent(level, "href={ ", URLExpr(f.elName, a.U), " }")
 	case "style":
 		f.indent(level, "style={ env.T", num(a.E), "() }")
+	case "classkv":
+		f.indent(level, "class={ env.K(1), templ.KV(env.K(2), env.C(", num(a.C), ")) }")
 	case "cssclass":
 		f.indent(level, "class={ boxed() }")
 	case "scriptcall":
@@ -205,7 +207,7 @@ func (f *fprinter) node(n Node, level int) {
 		}
 		f.indent(level, "}")
 	case "call":
-		f.indent(level, "@", n.Comp, "()")
+		f.indent(level, "@", n.Comp, "(", CallArgs(n.Comp), ")")
 	case "callb":
 		f.indent(level, "@", n.Comp, "() {\n")
 		f.body(level+1, n.Body)
